@@ -16,6 +16,9 @@ pub enum Spec {
     L1 { max: u128, len: usize, chunk: usize },
     /// harness-defined: x(x-1)(x-2) = 0 on each of `len` inputs, one PolyEval(deg 3) gadget
     Deg3 { len: usize },
+    /// harness-defined circuit with TWO gadgets (Mul, then PolyEval(x^2-x)): input (x0, x1), outputs
+    /// [Mul(x0,x0)-x0, P(x1)]; valid iff both are bits. Exercises the multi-gadget paths of the FLP.
+    TwoGadget,
 }
 
 fn bits_of(max: u128) -> usize {
@@ -45,6 +48,7 @@ impl Spec {
             Spec::Multihot { len, max_weight, .. } => len + bits_of(*max_weight as u128),
             Spec::L1 { max, len, .. } => bits_of(*max) * (len + 1),
             Spec::Deg3 { len } => *len,
+            Spec::TwoGadget => 2,
         }
     }
     /// chunk length L of the parallel-sum range check (degree of the circuit in one joint rand)
@@ -62,9 +66,12 @@ impl Spec {
             _ => 2,
         }
     }
+    pub fn num_gadgets(&self) -> usize {
+        if matches!(self, Spec::TwoGadget) { 2 } else { 1 }
+    }
     pub fn gadget_calls(&self) -> usize {
         match self {
-            Spec::Count => 1,
+            Spec::Count | Spec::TwoGadget => 1,
             Spec::Sum { max } => bits_of(*max),
             Spec::Deg3 { len } => *len,
             _ => self.input_len().div_ceil(self.chunk()),
@@ -86,7 +93,7 @@ impl Spec {
         }
         let allbits = x.iter().all(|v| *v <= 1);
         match self {
-            Spec::Count | Spec::Sum { .. } | Spec::SumVec { .. } => allbits,
+            Spec::Count | Spec::Sum { .. } | Spec::SumVec { .. } | Spec::TwoGadget => allbits,
             Spec::Deg3 { .. } => x.iter().all(|v| *v <= 2),
             Spec::Histogram { .. } => allbits && x.iter().fold(0, |a, b| addmod(a, *b, p)) == 1 % p,
             Spec::Multihot { len, max_weight, .. } => {
@@ -110,7 +117,7 @@ impl Spec {
         let f = field_size as f64;
         let circ = (self.chunk() as f64 + if self.outputs() > 1 { 1.0 } else { 0.0 }) / f;
         let pp = self.wire_poly_len() as f64;
-        let flp = (self.gadget_degree() as f64) * (pp - 1.0) / (f - pp);
+        let flp = (self.num_gadgets() as f64) * (self.gadget_degree() as f64) * (pp - 1.0) / (f - pp);
         circ + flp
     }
     /// Encoding of an integer in `[0,max]` with the draft's offset-last-bit scheme.
@@ -127,6 +134,7 @@ impl Spec {
     pub fn valid_examples(&self) -> Vec<Vec<u128>> {
         match self {
             Spec::Count => vec![vec![0], vec![1]],
+            Spec::TwoGadget => vec![vec![0, 0], vec![1, 1], vec![0, 1]],
             Spec::Deg3 { len } => vec![vec![0; *len], vec![2; *len], (0..*len).map(|i| (i % 3) as u128).collect()],
             Spec::Sum { max } => {
                 let mut v = vec![Self::enc_int(0, *max), Self::enc_int(*max, *max), Self::enc_int(max / 2, *max)];
@@ -179,6 +187,7 @@ impl Spec {
         let _ = p;
         match self {
             Spec::Count => out.len() == 1 && out[0] <= 1,
+            Spec::TwoGadget => out.len() == 2 && out.iter().all(|v| *v <= 1),
             Spec::Deg3 { len } => out.len() == *len && out.iter().all(|v| *v <= 2),
             Spec::Sum { max } => out.len() == 1 && out[0] <= *max,
             Spec::SumVec { max, len, .. } => out.len() == *len && out.iter().all(|v| v <= max),
@@ -197,12 +206,13 @@ impl Spec {
             Spec::Multihot { .. } => 5,
             Spec::L1 { .. } => 7,
             Spec::Deg3 { .. } => 0xFFFF_1234,
+            Spec::TwoGadget => 0xFFFF_2222,
         }
     }
     /// Truncation of a valid encoding (the aggregatable output), as residues.
     pub fn truncate(&self, x: &[u128], p: u128) -> Vec<u128> {
         match self {
-            Spec::Count | Spec::Histogram { .. } | Spec::Deg3 { .. } => x.to_vec(),
+            Spec::Count | Spec::Histogram { .. } | Spec::Deg3 { .. } | Spec::TwoGadget => x.to_vec(),
             Spec::Sum { max } => vec![Self::dec(x, *max, p)],
             Spec::SumVec { max, .. } => x.chunks(bits_of(*max)).map(|c| Self::dec(c, *max, p)).collect(),
             Spec::Multihot { len, .. } => x[..*len].to_vec(),
@@ -285,6 +295,85 @@ where
     }
 }
 
+/// Harness-defined two-gadget circuit (see `Spec::TwoGadget`).
+#[derive(Clone, Debug, PartialEq, Eq)]
+pub struct TwoGadget<F> {
+    ph: PhantomData<F>,
+}
+impl<F: KitField> TwoGadget<F>
+where
+    F::Integer: IntConv,
+{
+    pub fn new() -> Self {
+        TwoGadget { ph: PhantomData }
+    }
+}
+impl<F: KitField> Default for TwoGadget<F>
+where
+    F::Integer: IntConv,
+{
+    fn default() -> Self {
+        Self::new()
+    }
+}
+impl<F: KitField> Flp for TwoGadget<F>
+where
+    F::Integer: IntConv,
+{
+    type Field = F;
+    fn gadget(&self) -> Vec<Box<dyn Gadget<F>>> {
+        vec![Box::new(prio::flp::gadgets::Mul::new(1)), Box::new(PolyEval::new(vec![F::zero(), -F::one(), F::one()], 1))]
+    }
+    fn num_gadgets(&self) -> usize {
+        2
+    }
+    fn valid(&self, g: &mut Vec<Box<dyn Gadget<F>>>, input: &[F], joint_rand: &[F], _n: usize) -> Result<Vec<F>, FlpError> {
+        self.valid_call_check(input, joint_rand)?;
+        let a = g[0].eval(&[input[0], input[0]])? - input[0];
+        let b = g[1].eval(&[input[1]])?;
+        Ok(vec![a, b])
+    }
+    fn input_len(&self) -> usize {
+        2
+    }
+    fn proof_len(&self) -> usize {
+        // Mul: arity 2 + gadget poly 2*(2-1)+1 = 3; PolyEval(deg 2): arity 1 + 3
+        (2 + 3) + (1 + 3)
+    }
+    fn verifier_len(&self) -> usize {
+        1 + (2 + 1) + (1 + 1)
+    }
+    fn joint_rand_len(&self) -> usize {
+        0
+    }
+    fn eval_output_len(&self) -> usize {
+        2
+    }
+    fn prove_rand_len(&self) -> usize {
+        3
+    }
+}
+impl<F: KitField> Type for TwoGadget<F>
+where
+    F::Integer: IntConv,
+{
+    type Measurement = Vec<u8>;
+    type AggregateResult = Vec<u128>;
+    fn encode_measurement(&self, m: &Vec<u8>) -> Result<Vec<F>, FlpError> {
+        Ok(m.iter().map(|x| F::fe(*x as u128)).collect())
+    }
+    fn truncate(&self, input: Vec<F>) -> Result<Vec<F>, FlpError> {
+        self.truncate_call_check(&input)?;
+        Ok(input)
+    }
+    fn decode_result(&self, data: &[F], _n: usize) -> Result<Vec<u128>, FlpError> {
+        Ok(data.iter().map(|x| x.val()).collect())
+    }
+    fn output_len(&self) -> usize {
+        2
+    }
+}
+
 /// Visitor over the concrete Rust type of a `Spec` instantiated at field `F`.
 pub trait Visit<F: KitField>
 where
@@ -307,5 +396,6 @@ where
         Spec::Multihot { len, max_weight, chunk } => v.visit(spec, MultihotCountVec::<F, ParallelSum<F, Mul>>::new(*len, *max_weight, *chunk)?),
         Spec::L1 { max, len, chunk } => v.visit(spec, L1BoundSum::<F, ParallelSum<F, Mul>>::new(int(*max), *len, *chunk)?),
         Spec::Deg3 { len } => v.visit(spec, Deg3::<F>::new(*len)),
+        Spec::TwoGadget => v.visit(spec, TwoGadget::<F>::new()),
     })
 }
